@@ -4,8 +4,9 @@ import framework as fw
 import bytes_stream
 from props import common_prog
 
-THEOREM_MODULES = ["Hcl.Theorems.C13"]
-THEOREMS = {"Hcl.Theorems.C13": ["C13_construction_no_internal_error", "C13_accepted_runs", "Program_new_np", "resolveConstants_np",
+THEOREM_MODULES = ["Hcl.Theorems.C13", "Hcl.Theorems.C11Fuel"]
+THEOREMS = {"Hcl.Theorems.C11Fuel": ["C11_parser_fuel_enough", "C11_parser_fuel_independent"],
+            "Hcl.Theorems.C13": ["C13_construction_no_internal_error", "C13_accepted_runs", "Program_new_np", "resolveConstants_np",
                                  "assignmentsToActions_np", "check_np", "GBuild.sort_ne_panic", "C13_lexer_terminates", "C13_lexer_progress", "C13_render_total", "C13_render_total_y86",
                                  "C13_lookup_total", "C13_preamble_utf8"]}
 
@@ -20,6 +21,9 @@ RULE = ("S-TEXT (in-process, real preamble, parse_y86_hcl + Error::format_for_co
         "S-BYTES (the real binary on files of arbitrary bytes incl. invalid UTF-8, NUL, BOM; --check and a 3-cycle run): exit "
         "status 0 or 1, 'error:' on stderr iff 1, no panic, no internal error, no hang (60 s). "
         "S-REGION: show_region on arbitrary texts and spans incl. usize::MAX (no panic; model correspondence). "
+        "S-DISASM / S-TRACE (as in C20): every first-two-byte combination through the real disassembler and the trace line of "
+        "real cycles at random pcs over random memory, under catch_unwind: whatever bytes a program makes the simulator fetch, "
+        "printing the trace line must not panic. "
         "non-trivial = rejected or malformed inputs; distinct = distinct texts.")
 
 _binary = {}
@@ -97,8 +101,16 @@ def judge_region(req, impl, model, spec):
             "cats": ["region"]}
 
 
+def judge_nopanic(req, impl, model, spec):
+    ok = not impl.startswith("PANIC")
+    return {"corr": impl == model, "oracle": ok, "what": "" if ok else "the disassembler / trace line panicked", "key": req,
+            "cats": ["disasm" if req.startswith("(disasm") else "trace"]}
+
+
 def streams(tier, seed):
     q = tier == "quick"
     return [{"name": "text", "stream": "anytext", "count": 4000 if q else 300000, "judge": judge_text},
             {"name": "bytes", "stream": "bytes", "count": 1500 if q else 60000, "pygen": pygen, "judge": judge_bytes},
-            {"name": "region", "stream": "region", "count": 10000 if q else 500000, "judge": judge_region}]
+            {"name": "region", "stream": "region", "count": 10000 if q else 500000, "judge": judge_region},
+            {"name": "disasm", "stream": "disasm", "count": 2 if q else 10, "judge": judge_nopanic},
+            {"name": "trace", "stream": "trace", "count": 1500 if q else 50000, "judge": judge_nopanic}]
